@@ -1046,3 +1046,42 @@ CASES += [
         match bdd {""",
          more=[(B,) + _SM_FIELD, (B,) + _SM_INIT]),
 ]
+
+CASES += [
+    dict(name="gl10-ite-cache-insert-renormalises", file="src/builder/sdd/compression.rs", rule="GL", props=["C03", "C16"], expect="ite_cache_insert:GL10",
+         old="""        self.ite_cache.borrow_mut().insert(ite, res, hash)""",
+         new="""        let res = if ite.is_compl_choice() { res.neg() } else { res };
+        self.ite_cache.borrow_mut().insert(ite, res, hash)"""),
+    dict(name="cp-closure-exists-on-stored-subs", file=SB, rule="CP", props=["C03"], expect="exists:sdd:closure-elem",
+         old="""        // TODO this can be optimized by specializing it
+        let v1 = self.condition(sdd, lbl, true);""",
+         new="""        if let SddPtr::Reg(or) | SddPtr::Compl(or) = sdd {
+            let lbl_idx = self.vtree_manager().var_index(lbl);
+            if self.vtree_manager().is_prime_index(or.index(), lbl_idx) {
+                let v: Vec<SddAnd> = or
+                    .iter()
+                    .map(|a| SddAnd::new(a.prime(), self.exists(a.sub(), lbl)))
+                    .collect();
+                let r = self.canonicalize(v, or.index());
+                return if sdd.is_neg() { r.neg() } else { r };
+            }
+        }
+        let v1 = self.condition(sdd, lbl, true);"""),
+    dict(name="cp-closure-exists-sign-adjusted-ok", file=SB, rule="CP", props=["C03"], expect=None,
+         old="""        // TODO this can be optimized by specializing it
+        let v1 = self.condition(sdd, lbl, true);""",
+         new="""        if let SddPtr::Reg(or) | SddPtr::Compl(or) = sdd {
+            let lbl_idx = self.vtree_manager().var_index(lbl);
+            if self.vtree_manager().is_prime_index(or.index(), lbl_idx) {
+                let v: Vec<SddAnd> = or
+                    .iter()
+                    .map(|a| {
+                        let s = if sdd.is_neg() { a.sub().neg() } else { a.sub() };
+                        SddAnd::new(a.prime(), self.exists(s, lbl))
+                    })
+                    .collect();
+                return self.canonicalize(v, or.index());
+            }
+        }
+        let v1 = self.condition(sdd, lbl, true);"""),
+]
